@@ -18,6 +18,8 @@ def claim(pid, text, note="", design="DESIGN.md section 6 " ):
     CLAIMS[pid] = (text, note, design + pid)
 
 exec(open(os.path.join(ROOT, 'tools', 'claims.py')).read())
+for _k in list(CLAIMS):
+    CLAIMS[_k] = (CLAIMS[_k][0] + COMMON_ADDENDUM, CLAIMS[_k][1], CLAIMS[_k][2])
 
 def source_commits():
     try:
